@@ -275,7 +275,7 @@ def Bprime_q2(L, q2, q02, d):
     """
     Blatt-Weisskopf barrier factors.
     """
-    q02 = tf.cast(q02, q2.dtype)
+    q02 = _const(q02, q2.dtype)
     _epsilon = 1e-15
     z0 = q02 * d**2
     z = q2 * d**2
